@@ -415,23 +415,41 @@ fn run_c19(case: &Value, id: &str, _rng: &mut Rng) -> Value {
         })
         .collect();
     let data = b"hello".to_vec();
-    let resp = match route {
-        "ctor" => Response::new(StatusCode(200), hdrs, std::io::Cursor::new(data), Some(5), None),
+    // "+wd": the body is replaced (with_data) after the first half of the list has been given
+    let (base, wd) = match route.strip_suffix("+wd") {
+        Some(b) => (b, true),
+        None => (route, false),
+    };
+    let split = if wd { (hdrs.len() + 1) / 2 } else { hdrs.len() };
+    let mut first = hdrs;
+    let rest = first.split_off(split);
+    let mut resp = match base {
+        "ctor" => Response::new(StatusCode(200), first, std::io::Cursor::new(data.clone()), Some(5), None),
         "add" => {
-            let mut r = Response::new(StatusCode(200), vec![], std::io::Cursor::new(data), Some(5), None);
-            for h in hdrs {
+            let mut r = Response::new(StatusCode(200), vec![], std::io::Cursor::new(data.clone()), Some(5), None);
+            for h in first {
                 r.add_header(h);
             }
             r
         }
         _ => {
-            let mut r = Response::new(StatusCode(200), vec![], std::io::Cursor::new(data), Some(5), None);
-            for h in hdrs {
+            let mut r = Response::new(StatusCode(200), vec![], std::io::Cursor::new(data.clone()), Some(5), None);
+            for h in first {
                 r = r.with_header(h);
             }
             r
         }
     };
+    if wd {
+        resp = resp.with_data(std::io::Cursor::new(data), Some(5));
+        for h in rest {
+            if base == "add" {
+                resp.add_header(h);
+            } else {
+                resp = resp.with_header(h);
+            }
+        }
+    }
     let declared = resp.data_length().map(|x| x as i64).unwrap_or(-1);
     let mut out = Vec::new();
     let _ = resp.raw_print(&mut out, HTTPVersion(1, 1), &[], true, None);
